@@ -196,6 +196,7 @@ def run(prop, tier, seed):
     z = runner.zygote(REPO)
     npairs = P.cfg[tier]['pairs']
     small = bool(P.cfg[tier].get('small'))
+    all_k_pairs = P.cfg[tier].get('all_k_pairs', 0)
     pairs = []
     fixed = list(PAIRS_FIXED)
     rng.shuffle(fixed)
@@ -207,13 +208,13 @@ def run(prop, tier, seed):
             eb = ea if rng.random() < 0.5 else rng.choice(spec.ELEMENT_CONTENT_ELEMENTS)
         if i % 3 == 1:
             # lazy-table probe programs (many classes, every simple-type kind), the same in both threads
-            A = gen_program(z, hash64(seed, 'C20', i, 'A'), None, 'a', prop='C20probe', small=small)
+            A = gen_program(z, hash64(seed, 'C20', i, 'A'), None, 'a', prop='C20probe', small=small or i < all_k_pairs)
             B = [dict(op) for op in A]
             ea = eb = 'probe-program'
             classes = sorted({op['c']['name'] for op in A if op['op'] == 'NEW'})[:30] + ['note', 'pitch']
             pairs.append((i, A, B, classes, ea, eb))
             continue
-        A = gen_program(z, hash64(seed, 'C20', i, 'A'), ea, 'a0', small=small)
+        A = gen_program(z, hash64(seed, 'C20', i, 'A'), ea, 'a0', small=small or i < all_k_pairs)
         if i % 2 == 0:
             # the same program in both threads: whatever A is initialising, B needs too
             B = [dict(op) for op in A]
@@ -233,7 +234,7 @@ def run(prop, tier, seed):
         first = [f for f in first if f <= n]
         r2 = random.Random(hash64(seed, 'C20', i, 'k'))
         window_complete = True
-        if P.cfg[tier].get('all_k'):
+        if P.cfg[tier].get('all_k') or (i < P.cfg[tier].get('all_k_pairs', 0)):
             ks = list(range(1, n + 1))
             exhaustive = True
         else:
